@@ -72,8 +72,8 @@ var specs = map[string]*spec{
 	"C06": {ID: "C06", Profiles: []string{"core", "election", "snapshot"}, Engine: "cluster", Accept: []string{"C06"}, Level: "exploration",
 		Rule:   "one run = one seeded cluster simulation; every handled AppendEntries request (incl. duplicated and stale re-delivered ones) is checked against the log-wrapper calls it made, and logs are compared pairwise after every append. Non-trivial: >= 1 follower truncation or stale re-delivery happened. Distinct: distinct event-log hashes among those.",
 		Probes: []string{"ae-truncated-follower", "ae-accepted-with-entries"}},
-	"C07": {ID: "C07", Profiles: []string{"core", "election"}, Engine: "cluster", Accept: []string{"C07"}, Level: "exploration",
-		Rule: "one run = one seeded cluster simulation; at the first sample showing a node as leader of a term its log must hold every committed entry. Non-trivial: >= 2 leaders elected with >= 1 committed entry. Distinct: distinct event-log hashes among those."},
+	"C07": {ID: "C07", Profiles: []string{"core", "election", "snapshot"}, Engine: "cluster", Accept: []string{"C07"}, Level: "exploration",
+		Rule: "one run = one seeded cluster simulation (one third of the runs with snapshots and log compaction on, so that voters and candidates answer from a compacted log); at the first sample showing a node as leader of a term its log must hold every committed entry. Non-trivial: >= 2 leaders elected with >= 1 committed entry. Distinct: distinct event-log hashes among those."},
 	"C08": {ID: "C08", Profiles: []string{"election", "durability", "election", "snapshot"}, Engine: "cluster", Accept: []string{"C08"}, Level: "exploration",
 		Rule:   "one run = one seeded cluster simulation; per node across incarnations: terms in replies/status/reloads never decrease, one candidate per term (grants and persisted votes), votes only for up-to-date logs, prevotes inert. Non-trivial: >= 1 real vote granted and >= 1 crash. Distinct: distinct event-log hashes among those.",
 		Probes: []string{"vote-granted", "prevote-granted"}},
